@@ -340,6 +340,11 @@ fn assemble(contents: &StaticSource) -> Result<Air> {
     let parser = lace::AsmParser::new(contents.src())?;
     let mut air = parser.parse()?;
     air.backpatch()?;
+    // Errors which only surface on emission (e.g. label out of range) must be caught here,
+    // so that `check`, `watch`, `compile`, and `run` agree on which sources are valid
+    for stmt in &air {
+        stmt.emit()?;
+    }
     Ok(air)
 }
 
